@@ -17,6 +17,7 @@ mod fam_cycles;
 mod fam_driver;
 mod fam_emitter;
 mod fam_files;
+mod fam_lints;
 mod fam_options;
 mod fam_preproc;
 mod fam_repro;
@@ -102,6 +103,7 @@ pub fn make_family(name: &str) -> Option<Box<dyn Family>> {
         "aliaschain" => Some(Box::new(fam_scope::AliasChain::default())),
         "repro" => Some(Box::new(fam_repro::Repro::default())),
         "rules" => Some(Box::new(fam_rules::Rules::default())),
+        "lints" => Some(Box::new(fam_lints::Lints::default())),
         "wire" => Some(Box::new(fam_wire::Wire::default())),
         _ => None,
     }
